@@ -55,9 +55,28 @@ pub trait L: Sized + Clone + Eq + Ord + Hash + Display + LowerHex + Binary {
     fn from_hex_(n: usize, s: &str) -> Result<Self, ()>;
     fn verif_next_(&mut self) -> bool;
     fn all_functions_(n: usize) -> Box<dyn Iterator<Item = Self>>;
+    /// the provided methods of `Iterator` (`nth`, `skip`, `step_by`, `count`, `last`, ...) called on the
+    /// concrete iterator type, so that an override in the crate is what runs
+    fn itera_(n: usize, a: usize, kind: &str, b: usize) -> Option<String>;
     /// conversion from a dynamic `Lut` into this type (`TryFrom<Lut>` for the static types, the
     /// identity for `Lut` itself when the size is `n`); `None` = `Err`
     fn conv_from_dyn(n: usize, src: Lut) -> Option<Self>;
+}
+
+/// two values of one type laid out inline, 8 bytes apart modulo 16 (the struct itself is
+/// 16-aligned): `a` on a 16-byte boundary and `b` off it, and the other way round
+#[repr(C, align(16))]
+pub struct Mis0<T> {
+    pub a: T,
+    pub pad: u64,
+    pub b: T,
+}
+#[repr(C, align(16))]
+pub struct Mis1<T> {
+    pub pad: u64,
+    pub a: T,
+    pub pad2: u64,
+    pub b: T,
 }
 
 macro_rules! common_methods {
@@ -167,9 +186,39 @@ macro_rules! common_methods {
                 (0, 8) => if a == b { &a & &a } else { &a & &b },
                 (1, 8) => if a == b { &a | &a } else { &a | &b },
                 (_, 8) => if a == b { &a ^ &a } else { &a ^ &b },
-                (0, _) => if a == b { a.and(&a) } else { a.and(&b) },
-                (1, _) => if a == b { a.or(&a) } else { a.or(&b) },
-                (_, _) => if a == b { a.xor(&a) } else { a.xor(&b) },
+                (0, 9) => if a == b { a.and(&a) } else { a.and(&b) },
+                (1, 9) => if a == b { a.or(&a) } else { a.or(&b) },
+                (_, 9) => if a == b { a.xor(&a) } else { a.xor(&b) },
+                // forms 10..13: the two operands live inline at addresses that differ by 8 modulo
+                // 16 (seed C01-j: kernels that split each operand with `align_to::<u128>()` and
+                // pair the pieces).  10, 11: named in-place method; 12, 13: `&a op &b`
+                (o, f) => {
+                    let lay = f % 2;
+                    let named = f < 12;
+                    let mut m0 = Box::new(crate::lutapi::Mis0 { a: a.clone(), pad: 0, b: b.clone() });
+                    let mut m1 = Box::new(crate::lutapi::Mis1 { pad: 0, a, pad2: 0, b });
+                    let (x, y): (&mut Self, &Self) = if lay == 0 {
+                        let m = std::hint::black_box(&mut *m0);
+                        (&mut m.a, &m.b)
+                    } else {
+                        let m = std::hint::black_box(&mut *m1);
+                        (&mut m.a, &m.b)
+                    };
+                    if named {
+                        match o {
+                            0 => x.and_inplace(y),
+                            1 => x.or_inplace(y),
+                            _ => x.xor_inplace(y),
+                        }
+                        x.clone()
+                    } else {
+                        match o {
+                            0 => &*x & y,
+                            1 => &*x | y,
+                            _ => &*x ^ y,
+                        }
+                    }
+                }
             }
         }
         fn flip_ip(&mut self, i: usize) {
@@ -280,6 +329,9 @@ impl L for Lut {
     fn all_functions_(n: usize) -> Box<dyn Iterator<Item = Self>> {
         Box::new(Lut::all_functions(n))
     }
+    fn itera_(n: usize, a: usize, kind: &str, b: usize) -> Option<String> {
+        crate::implrun::run_itera(Lut::all_functions(n), a, kind, b)
+    }
     common_methods!();
 }
 
@@ -339,6 +391,9 @@ macro_rules! impl_static {
             }
             fn all_functions_(_n: usize) -> Box<dyn Iterator<Item = Self>> {
                 Box::new(<$t>::all_functions())
+            }
+            fn itera_(_n: usize, a: usize, kind: &str, b: usize) -> Option<String> {
+                crate::implrun::run_itera(<$t>::all_functions(), a, kind, b)
             }
             common_methods!();
         }
